@@ -10,7 +10,7 @@ shutil.copy(f"{wt}/demo_{m}.py", f"{d}/demo.py")
 notes = open(f"{wt}/notes.md").read()
 meta = {
     "property": prop,
-    "source": "independent sub-agent given only the property text and a scratch worktree" + ({"r3": "; round 3 brief: two cooperating sites (m1) / multi-step history or rare regime (m2)", "r4": "; round 4 brief: INPUT-REGIME change (m1) / LIFECYCLE change (m2)", "r6": "; round 6 brief: SCALE change (m1: wrong only beyond a size small-scope exploration does not reach) / free choice (m2: whatever the author expects a bounded-exhaustive harness to be structurally unable to see); launched with the scratch worktree as working directory", "r5": "; round 5 brief: EXACTNESS / TIE / BOUNDARY-VALUE change (m1) / ENVIRONMENT-INTERACTION change (m2: pickling, deep copies, numpy error state and print options, stale files, executor pools, interrupts, bound methods); launched with the scratch worktree as working directory (no view of /verif)"}.get(suffix, "")),
+    "source": "independent sub-agent given only the property text and a scratch worktree" + ({"r3": "; round 3 brief: two cooperating sites (m1) / multi-step history or rare regime (m2)", "r4": "; round 4 brief: INPUT-REGIME change (m1) / LIFECYCLE change (m2)", "r7": "; round 7 (6 properties): two free-choice changes of different kinds, the author being told everything the harness already covers; launched with the scratch worktree as working directory", "r6": "; round 6 brief: SCALE change (m1: wrong only beyond a size small-scope exploration does not reach) / free choice (m2: whatever the author expects a bounded-exhaustive harness to be structurally unable to see); launched with the scratch worktree as working directory", "r5": "; round 5 brief: EXACTNESS / TIE / BOUNDARY-VALUE change (m1) / ENVIRONMENT-INTERACTION change (m2: pickling, deep copies, numpy error state and print options, stale files, executor pools, interrupts, bound methods); launched with the scratch worktree as working directory (no view of /verif)"}.get(suffix, "")),
     "applies_to_repo_commit": subprocess.check_output(["git", "-C", wt, "log", "--format=%h", "-1"], text=True).strip(),
     "what_it_needs_to_manifest": "see notes.md (sub-agent's own description)",
     "verified_by_me": {
